@@ -49,6 +49,28 @@ fn char_edits(s: &str, i: usize, r: &mut StdRng) -> Vec<(String, String)> {
     out
 }
 
+/// Characters that "cleaning" code tends to swallow (trim, whitespace-tolerant decoders): inserted at both ends of a
+/// text and next to its separators; each result differs from the signed text by exactly one character.
+const INVISIBLE: [&str; 9] = [" ", "\n", "\t", "\r", "\u{a0}", "\u{2028}", "\u{feff}", "\u{3000}", "="];
+fn boundary_edits(s: &str, sep: char) -> Vec<String> {
+    let mut pos = vec![0, s.len()];
+    for (i, c) in s.char_indices() {
+        if c == sep {
+            pos.push(i);
+            pos.push(i + 1);
+        }
+    }
+    let mut out = vec![];
+    for p in pos {
+        for w in INVISIBLE {
+            let mut t = s.to_string();
+            t.insert_str(p, w);
+            out.push(t);
+        }
+    }
+    out
+}
+
 fn reserialise(d: &str, how: usize) -> Option<String> {
     let bytes = unb64(d)?;
     let text = String::from_utf8(bytes).ok()?;
@@ -247,6 +269,11 @@ pub fn run(ctx: &mut Ctx, o: &AttackOpts) {
                     go(ctx, &m2, i % 2 == 0);
                 }
             }
+            for t in boundary_edits(&m.jwt, '.') {
+                let mut m2 = m.clone();
+                m2.jwt = t;
+                go(ctx, &m2, false);
+            }
             // algorithm confusion: header alg rewritten to HS*, signed with the resolver's PUBLIC key bytes as HMAC secret
             if crate::keys::family(key) != "HMAC" {
                 let p: Vec<&str> = m.jwt.split('.').collect();
@@ -289,6 +316,11 @@ pub fn run(ctx: &mut Ctx, o: &AttackOpts) {
                     go(ctx, &m2, true);
                 }
             }
+            for t in boundary_edits(&kbt, '.') {
+                let mut m2 = m.clone();
+                m2.kb = Some(t);
+                go(ctx, &m2, true);
+            }
             // disclosures changed after the KB-JWT was made: one more, one fewer, reordered
             let extra: Vec<&String> = full.discs.iter().filter(|d| !m.discs.contains(d)).collect();
             for e in extra.iter().take(3) {
@@ -330,6 +362,15 @@ pub fn run(ctx: &mut Ctx, o: &AttackOpts) {
                     m2.discs.insert(at, d);
                 }
                 go(ctx, &m2, false);
+            }
+            // an invisible character at either end of a disclosure (the digest is over the presented text)
+            for (di, d) in full.discs.iter().enumerate().take(2) {
+                for t in boundary_edits(d, '~') {
+                    let mut m2 = full.clone();
+                    m2.kb = None;
+                    m2.discs[di] = t;
+                    go(ctx, &m2, false);
+                }
             }
             // each genuine disclosure re-serialised / re-padded / truncated, alone and next to the genuine one
             for (di, d) in full.discs.iter().enumerate() {
